@@ -80,6 +80,7 @@ func c10Classes(c netCase, r *netRun) (classes []string, nontrivial bool) {
 	if r.rec.sendBlocked > 0 {
 		classes = append(classes, "sender-saw-full-port(refill-on-NotifyPortFree)")
 	}
+	classes = append(classes, asymClasses(c, r)...)
 	full := false
 	for p, m := range r.rec.maxInOcc {
 		if m >= r.rec.capOfPort[p] {
@@ -125,7 +126,7 @@ func c10Classes(c netCase, r *netRun) (classes []string, nontrivial bool) {
 
 func TestC10DirectConnection(t *testing.T) {
 	s := kit.Begin(t, "C10", "oneconn",
-		"one direct connection (1/2/0.5/1.5/3 GHz, 800 MHz, 7 MHz), 2-6 plugged ports (caps 1-4) owned by 2-6 ticking/event-driven agents; per agent 0-4 timer bursts of 1-12 messages (times k*period, k<=8, 40% off-edge), 0-2 receipt-driven forwards, senders keep the backlog in State and refill on NotifyPortFree; receivers: 0-2 read stalls of 1-60 periods, ticking receivers read at most 0(all)/1/2/3 messages per port per tick, 8% never read. Oracle from port hooks: every Recvd is a sent message, at most once, at the port named by Dst, DeepEqual to what was sent, not before it was sent; per (src,dst) deliveries are a prefix of the sends in order; what the owner reads = what was delivered, in order; modelled incoming occupancy never exceeds the capacity; at Run's return no outgoing head is deliverable and, when all receivers drain, every sent message was delivered exactly once and consumed. Non-trivial: a delivery happened while another port of the connection was full with traffic pending for it, and >=3 distinct source ports had messages delivered")
+		"one direct connection (1/2/0.5/1.5/3 GHz, 800 MHz, 7 MHz), 2-6 plugged ports (caps 1-4; 19% with different incoming/outgoing capacities via messaging.NewPort) owned by 2-6 ticking/event-driven agents; per agent 0-4 timer bursts of 1-12 messages (times k*period, k<=8, 40% off-edge), 0-2 receipt-driven forwards, senders keep the backlog in State and refill on NotifyPortFree; receivers: 0-2 read stalls of 1-60 periods, ticking receivers read at most 0(all)/1/2/3 messages per port per tick, 8% never read. Oracle from port hooks: every Recvd is a sent message, at most once, at the port named by Dst, DeepEqual to what was sent, not before it was sent; per (src,dst) deliveries are a prefix of the sends in order; what the owner reads = what was delivered, in order; modelled incoming occupancy never exceeds the capacity; at Run's return no outgoing head is deliverable and, when all receivers drain, every sent message was delivered exactly once and consumed. Non-trivial: a delivery happened while another port of the connection was full with traffic pending for it, and >=3 distinct source ports had messages delivered")
 	defer s.End()
 	s.Assume("message identity = unique MsgMeta.ID assigned by the harness; 'unmodified' = reflect.DeepEqual of the message value seen by the Recvd hook / RetrieveIncoming and the value passed to Send")
 
